@@ -135,17 +135,19 @@ def boomset_exc(failmap, x):
     return failmap.get(str(leaf[2]))
 
 
-def f_boomset(failmap, i, x):
+def f_boomset(failmap, i, x, noargs=False):
     e = boomset_exc(failmap, x)
     if e is not None:
+        if noargs:
+            raise exc_class(e)()  # exceptions without arguments are legal (`raise FilterException`)
         raise exc_class(e)(str(source_leaf(x)[2]))
     return ('m', i, x)
 
 
-def boomset_model(failmap, i, x):
+def boomset_model(failmap, i, x, noargs=False):
     e = boomset_exc(failmap, x)
     if e is not None:
-        return Raise(e, (str(source_leaf(x)[2]),))
+        return Raise(e, () if noargs else (str(source_leaf(x)[2]),))
     return ('m', i, x)
 
 
